@@ -10,7 +10,8 @@ Core Lean only.
 -/
 namespace HgVerif.Sched
 
-abbrev Time := Nat
+/-- times are microsecond counts; a notation (not a definition) so that `omega` sees `Nat` -/
+scoped notation "Time" => Nat
 
 /-- a call `graph.schedule_node(node, time)` -/
 structure Req where
